@@ -11,7 +11,7 @@ let sig_of_code (c : int) : ostring = match c with
   | 401 -> "gap-request-wrong" | 402 -> "spurious-resend-request" | 403 -> "kept-message-not-delivered" | 404 -> "recovery-not-ended" | 405 -> "kept-message-lost"
   | 601 -> "callback-past-gate" | 602 -> "wrong-reaction" | 603 -> "reject-shape"
   | 701 -> "disconnect-changed-store" | 702 -> "connect-changed-store" | 703 -> "reset-logon-shape" | 704 -> "seqreset-backwards"
-  | 705 -> "reset-without-cause" | 706 -> "reset-option-ineffective" | 707 -> "reset-logon-reply"
+  | 705 -> "reset-without-cause" | 706 -> "reset-option-ineffective" | 707 -> "reset-logon-reply" | 708 -> "reset-logon-not-number-1" | 709 -> "received-reset-ignored"
   | 801 -> "first-message-not-logon" | 802 -> "app-message-outside-logon" | 803 -> "fromapp-outside-logon" | 804 -> "double-onlogout"
   | 805 -> "write-after-close" | 806 -> "closed-without-onlogout"
   | 2001 -> "testrequest-echo" | 2002 -> "heartbeat-timer" | 2003 -> "peer-timer" | 2004 -> "dead-peer" | 2005 -> "pending-cancel"
@@ -58,12 +58,23 @@ let check (prop : ostring) cfg events (obs : Sx.t) : bool * ostring =
     | _ ->
       (* classify each failure; report one whose class is least specific last, so that an unlisted class is preferred *)
       let arr = Array.of_list (init_obs cfg :: os) in
+      let evarr = Array.of_list events in
+      (* the recorded finding needs the run loop NOT to have handled the message event between the application's send and the
+         flushing step; if a flush did run in between and the queue survived it, that is a different defect *)
+      let flushed_since_send i =
+        let rec back j = if j < 0 then false else
+          match evarr.(j) with
+          | EFlush -> true
+          | EAppSend _ -> false
+          | _ -> back (j - 1) in
+        back (i - 1) in
       let cls (i, c) =
         let i = int_of_nat i and code = int_of_z c in
         let prev = arr.(i) and o = arr.(i + 1) in
         let sg =
           if int_of_z prev.ob_inbuf > 0 && (o.ob_closed || not (sh_connected o.ob_st)) then "drain-after-disconnect"
-          else if code = 802 && int_of_z prev.ob_tosend > 0 && not (sh_logged_on prev.ob_st) then "queued-app-flushed-outside-logon"
+          else if code = 802 && int_of_z prev.ob_tosend > 0 && not (sh_logged_on prev.ob_st) && not (flushed_since_send i)
+          then "queued-app-flushed-outside-logon"
           else sig_of_code code in
         (sg, code, i) in
       let all = OList.map cls fails in
